@@ -177,6 +177,18 @@ type mutOp struct {
 
 // mutateTxn performs several mutations of one id inside ONE write transaction (optionally reading first).
 func (w *c13world) mutateTxn(id string, ops []mutOp, other int) error {
+	return w.mutateTxnObs(id, ops, other, nil)
+}
+
+// mutateTxnObs is mutateTxn with obs called around every operation that succeeded (model state before/after).
+func (w *c13world) mutateTxnObs(id string, ops []mutOp, other int, obs func(before, after []rec, b, a rec)) error {
+	entry := func() rec {
+		e := rec{"id": bytesOf(id), "key": []int{}, "idx": false}
+		if k, ok := w.model[id]; ok && k != nil {
+			e = rec{"id": bytesOf(id), "key": bytesOf(*k), "idx": true}
+		}
+		return e
+	}
 	t := w.bs.Write(id)
 	defer t.Close()
 	var firstErr error
@@ -185,6 +197,7 @@ func (w *c13world) mutateTxn(id string, ops []mutOp, other int) error {
 	}
 	for _, o := range ops {
 		var err error
+		before, b := w.entries(), entry()
 		switch {
 		case o.del:
 			err = t.Delete()
@@ -204,6 +217,9 @@ func (w *c13world) mutateTxn(id string, ops []mutOp, other int) error {
 		}
 		if err != nil && firstErr == nil {
 			firstErr = err
+		}
+		if err == nil && obs != nil {
+			obs(before, w.entries(), b, entry())
 		}
 	}
 	return firstErr
@@ -228,7 +244,9 @@ func (w *c13world) query(q iquery) ([][]int, error) {
 	return out, nil
 }
 
-var c13ids = []string{"a", "b", "ab", "ba"}
+// "k;" is, in a store without prefix, a database key that is the exact successor of the query prefix "k:" of index "k".
+// (Ids that start with "<index name>:" share the key space of the index entries of a prefix-less store and are outside the judged domain.)
+var c13ids = []string{"a", "b", "ab", "ba", "k;"}
 var c13keys = []string{"", "a", "b", "c", "aa", "ab", "ca", "\xff", "a\xff", "a\xffb"}
 var c13prefixes = []string{"", "a", "b", "c", "aa", "ab", "ac", "ca", "d", "aab", "a\x00", "\x00", "ab\x00a", "\xff", "a\xff"}
 
@@ -364,40 +382,45 @@ func RunC14(c *core.Ctx) {
 		var muts []rec
 		for step := 0; step < 8; step++ {
 			id, key, del := randMutation(w, rng)
-			before := w.entries()
-			var bEntry rec = rec{"id": bytesOf(id), "key": []int{}, "idx": false}
-			if k, ok := w.model[id]; ok && k != nil {
-				bEntry = rec{"id": bytesOf(id), "key": bytesOf(*k), "idx": true}
+			ops := []mutOp{{key, del}}
+			// half of the transactions perform several operations on the id before they are closed
+			for rng.Intn(2) == 0 && len(ops) < 3 {
+				_, k2, d2 := randMutation(w, rng)
+				ops = append(ops, mutOp{k2, d2})
 			}
-			_, existed := w.model[id]
+			type opObs struct {
+				before, after []rec
+				b, a          rec
+			}
+			var seen []opObs
 			ncb := len(w.lastQC)
-			if err := w.mutate(id, key, del, step); err != nil {
-				continue
-			}
+			w.mutateTxnObs(id, ops, step, func(before, after []rec, b, a rec) {
+				seen = append(seen, opObs{before, after, b, a})
+			})
 			w.qs.Flush()
-			aEntry := rec{"id": bytesOf(id), "key": []int{}, "idx": false}
-			if k, ok := w.model[id]; ok && k != nil {
-				aEntry = rec{"id": bytesOf(id), "key": bytesOf(*k), "idx": true}
-			}
-			_ = existed
-			muts = append(muts, rec{"b": bEntry, "a": aEntry})
-			after := w.entries()
-			w.cbMu.Lock()
-			var qc store.QueryChange
-			if len(w.lastQC) > ncb {
-				qc = w.lastQC[len(w.lastQC)-1]
-			}
-			w.cbMu.Unlock()
-			if qc == nil {
-				continue
-			}
-			for k := 0; k < c.Pick(10, 30); k++ {
-				q := randQuery(rng)
-				_, affected, err := qc.Events(q.values())
-				if err != nil {
-					continue
+			var keyChanging []opObs
+			for _, o := range seen {
+				muts = append(muts, rec{"b": o.b, "a": o.a})
+				if o.b["idx"] != o.a["idx"] || (o.b["idx"] == true && fmt.Sprint(o.b["key"]) != fmt.Sprint(o.a["key"])) {
+					keyChanging = append(keyChanging, o)
 				}
-				recs = append(recs, rec{"kind": "change", "entries": before, "after": after, "b": bEntry, "a": aEntry, "q": q.rec(), "affected": affected, "dbg": fmt.Sprintf("history %d step %d", h, step)})
+			}
+			w.cbMu.Lock()
+			qcs := append([]store.QueryChange(nil), w.lastQC[ncb:]...)
+			w.cbMu.Unlock()
+			if len(qcs) != len(keyChanging) {
+				continue // reported by the callbacks record below
+			}
+			for oi, qc := range qcs {
+				o := keyChanging[oi]
+				for k := 0; k < c.Pick(10, 30); k++ {
+					q := randQuery(rng)
+					_, affected, err := qc.Events(q.values())
+					if err != nil {
+						continue
+					}
+					recs = append(recs, rec{"kind": "change", "entries": o.before, "after": o.after, "b": o.b, "a": o.a, "q": q.rec(), "affected": affected, "dbg": fmt.Sprintf("history %d step %d op %d of %d", h, step, oi+1, len(ops))})
+				}
 			}
 		}
 		// callbacks: exactly one per key-changing mutation, in order, after the index commit
